@@ -15,6 +15,43 @@ class AnalysisError(Exception):
     """Analysis broken (anchor vanished, file unparsable...) -> exit 2."""
 
 
+class CanonCompare(ast.NodeTransformer):
+    """Normal form of single comparisons, applied to every module when it is loaded, so that rules see one spelling:
+       a > b  ->  b < a ;  a >= b  ->  b <= a ;  <const> == x  ->  x == <const>  (same for !=)."""
+
+    def visit_Compare(self, node):
+        self.generic_visit(node)
+        if len(node.ops) != 1:
+            return node
+        op, l, r = node.ops[0], node.left, node.comparators[0]
+        if isinstance(op, ast.Gt):
+            return ast.copy_location(ast.Compare(left=r, ops=[ast.Lt()], comparators=[l]), node)
+        if isinstance(op, ast.GtE):
+            return ast.copy_location(ast.Compare(left=r, ops=[ast.LtE()], comparators=[l]), node)
+        if isinstance(op, (ast.Eq, ast.NotEq)) and _is_literal(l) and not _is_literal(r):
+            return ast.copy_location(ast.Compare(left=r, ops=[op], comparators=[l]), node)
+        return node
+
+
+def cc(text_or_node):
+    """canonical (CanonCompare) source text of an expression given as text or node: `i > 1` -> `1 < i`"""
+    import copy
+    if isinstance(text_or_node, str):
+        try:
+            e = ast.parse(text_or_node, mode="eval").body
+        except SyntaxError:
+            return text_or_node
+    else:
+        e = copy.deepcopy(text_or_node)
+    e = CanonCompare().visit(e)
+    ast.fix_missing_locations(e)
+    return ast.unparse(e)
+
+
+def _is_literal(e):
+    return isinstance(e, ast.Constant) or (isinstance(e, ast.UnaryOp) and isinstance(e.op, ast.USub) and isinstance(e.operand, ast.Constant))
+
+
 def src(node):
     """Normalised source text of a node (position independent)."""
     if node is None:
@@ -152,6 +189,8 @@ class SourceModel:
                         tree = ast.parse(text, filename=path)
                     except SyntaxError as e:
                         raise AnalysisError(f"cannot parse {rel}: {e}")
+                if os.environ.get("NSA_CANON_COMPARE", "1") == "1":
+                    tree = CanonCompare().visit(tree)
                 parts = rel[:-3].split(os.sep)
                 is_pkg = parts[-1] == "__init__"
                 if is_pkg:
